@@ -220,6 +220,8 @@ let parse_top (s : string) : top * string =
     | "masg", _ -> TMoveAssign (nat 1, nat 2)
     | "set", _ -> TSetBytes (nat 1, bytes_of_hex (List.nth f 2))
     | "append", ["cat"; v] -> TAppend (nat 1, nat 2, bytes_of_hex v)
+    | ("selfset" | "selfview" | "selfasg"), ["set"; v] -> TSetBytes (nat 1, bytes_of_hex v)
+    | "selfappend", ["cat"; v] -> TAppend (nat 1, nat 1, bytes_of_hex v)
     | "clear", _ -> TClear (nat 1)
     | "del", _ -> TDel (nat 1)
     | _, "throw" :: e :: temps ->
